@@ -263,21 +263,51 @@ fn check_history(evs: &[Ev], final_gets: &[(u32, Option<u64>)], final_stamp: u64
             by_key.entry(k).or_default().push(e);
         }
     }
-    let superseded = |w: &Ev, before: u64, key_evs: &[&Ev]| -> Option<String> {
+    // Per key: the completed inserts / invalidates sorted by return stamp, with the running
+    // maximum of their call stamps: "some op that returned before `before` began after w returned"
+    // is then one binary search. invalidate_all needs the clock condition and is scanned.
+    let mut index: HashMap<u32, (Vec<u64>, Vec<(u64, usize)>, Vec<&Ev>)> = HashMap::new();
+    for (k, kev) in &by_key {
+        let mut ws: Vec<&Ev> = kev.iter().copied().filter(|e| e.done && matches!(e.op, COp::Insert { .. } | COp::Invalidate { .. })).collect();
+        ws.sort_by_key(|e| e.ret);
+        let rets: Vec<u64> = ws.iter().map(|e| e.ret).collect();
+        let mut best: Vec<(u64, usize)> = Vec::with_capacity(ws.len());
+        let mut cur = (0u64, 0usize);
+        for (i, e) in ws.iter().enumerate() {
+            if e.call > cur.0 {
+                cur = (e.call, i);
+            }
+            best.push(cur);
+        }
+        index.insert(*k, (rets, best, ws));
+    }
+    let mut inv_sorted: Vec<&Ev> = inv_all.iter().copied().filter(|e| e.done).collect();
+    inv_sorted.sort_by_key(|e| e.ret);
+    let superseded = |w: &Ev, before: u64, key: u32| -> Option<String> {
         // an insert / invalidate of the key, or an effective invalidate_all, that began after
         // w's insert returned and returned before `before`
         if !w.done {
             return None;
         }
-        for x in key_evs.iter().copied().chain(inv_all.iter().copied()) {
-            if !x.done || x.call <= w.ret || x.ret >= before {
-                continue;
+        if let Some((rets, best, ws)) = index.get(&key) {
+            let n = rets.partition_point(|r| *r < before);
+            if n > 0 {
+                let (call, i) = best[n - 1];
+                if call > w.ret {
+                    let x = ws[i];
+                    return Some(match x.op {
+                        COp::Insert { .. } => format!("insert of value {} by thread {}", x.vid, x.tid),
+                        _ => format!("invalidate by thread {}", x.tid),
+                    });
+                }
             }
-            match x.op {
-                COp::Insert { .. } if x.vid != w.vid => return Some(format!("insert of value {} by thread {}", x.vid, x.tid)),
-                COp::Invalidate { .. } => return Some(format!("invalidate by thread {}", x.tid)),
-                COp::InvalidateAll if x.clock_call > w.clock_ret => return Some(format!("invalidate_all by thread {} at clock {}", x.tid, x.clock_call)),
-                _ => {}
+        }
+        for x in inv_sorted.iter() {
+            if x.ret >= before {
+                break;
+            }
+            if x.call > w.ret && x.clock_call > w.clock_ret {
+                return Some(format!("invalidate_all by thread {} at clock {}", x.tid, x.clock_call));
             }
         }
         None
@@ -292,7 +322,7 @@ fn check_history(evs: &[Ev], final_gets: &[(u32, Option<u64>)], final_stamp: u64
         }
         for (e, res, begin, who) in &reads {
             st.gets_judged += 1;
-            if kev.iter().any(|w| !matches!(w.op, COp::Get { .. } | COp::Contains { .. }) && w.call < e.ret && (!w.done || w.ret > e.call)) {
+            if kev.len() <= 2000 && kev.iter().any(|w| !matches!(w.op, COp::Get { .. } | COp::Contains { .. }) && w.call < e.ret && (!w.done || w.ret > e.call)) {
                 st.overlapping_reads += 1;
             }
             if let Some(v) = res {
@@ -302,7 +332,7 @@ fn check_history(evs: &[Ev], final_gets: &[(u32, Option<u64>)], final_stamp: u64
                         if w.call > e.ret {
                             out.push(Violation { props: vec!["C02"], sig: "concurrent:future-value".into(), detail: format!("{} of key {} returned {} before its insert began", who, k, v), op_index: 0 });
                         }
-                        if let Some(by) = superseded(w, *begin, kev) {
+                        if let Some(by) = superseded(w, *begin, *k) {
                             let mut props = vec!["C02"];
                             if by.starts_with("invalidate") {
                                 props.push("C07");
@@ -337,7 +367,7 @@ fn check_history(evs: &[Ev], final_gets: &[(u32, Option<u64>)], final_stamp: u64
             match kev.iter().find(|e| e.vid == *v && matches!(e.op, COp::Insert { .. })) {
                 None => out.push(Violation { props: vec!["C02", "C01"], sig: "concurrent:final-phantom".into(), detail: format!("after all threads stopped key {} holds {}, which nobody wrote", k, v), op_index: 0 }),
                 Some(w) => {
-                    if let Some(by) = superseded(w, final_stamp, &kev) {
+                    if let Some(by) = superseded(w, final_stamp, *k) {
                         let mut props = vec!["C02"];
                         if by.starts_with("invalidate") {
                             props.push("C07");
@@ -565,7 +595,8 @@ fn run_program(prog: &Prog, mode: &str, strategy: Strategy, sseed: u64, stats: &
     } else {
         EVHASH.lock().unwrap().clear();
         EVSEQ.store(0, Ordering::SeqCst);
-        let p_inject = 1 + sseed % 4; // 1/4 .. 1/1 ... of the points get a delay
+        // chase: full speed, no delays. stress: 1/4 .. 4/4 of the points get a delay
+        let p_inject = if mode == "chase" { 0 } else { 1 + sseed % 4 };
         mini_moka::verif::set_switch_hook(Some(Arc::new(move |p| {
             common_hook(p);
             let t = sched::tid();
@@ -808,6 +839,7 @@ fn mode_programs(args: &Args, mode: &str) {
     let nprog = args.u64("programs", 100);
     let nsched = args.u64("schedules", 10);
     let big_every = args.u64("big-every", 12).max(1);
+    let chase_every = args.u64("chase-every", 5).max(1);
     let out_path = args.str("out", "");
     let mut report = Report { engine: format!("conmon-{}", mode), ..Default::default() };
     let mut master = Rng::new(seed ^ 0xC0C0);
@@ -823,7 +855,17 @@ fn mode_programs(args: &Args, mode: &str) {
             break;
         }
         let mut rng = master.fork();
-        let prog = if mode == "park" { gen_park_prog(&mut rng) } else if mode == "stress" && rng.chance(1, big_every) { gen_big_prog(&mut rng) } else { gen_prog(&mut rng) };
+        let prog = if mode == "park" {
+            gen_park_prog(&mut rng)
+        } else if mode == "chase" {
+            gen_chase_prog(&mut rng, 10)
+        } else if mode == "stress" && rng.chance(1, big_every) {
+            gen_big_prog(&mut rng)
+        } else if mode == "stress" && rng.chance(1, chase_every) {
+            gen_chase_prog(&mut rng, 1)
+        } else {
+            gen_prog(&mut rng)
+        };
         let mut nontrivial = false;
         for si in 0..nsched {
             let sname = strategies[(si as usize) % strategies.len()];
@@ -874,6 +916,39 @@ fn mode_programs(args: &Args, mode: &str) {
     } else {
         report.write(&out_path);
     }
+}
+
+/// High-contention "chase": writers keep replacing and invalidating one or two keys while
+/// readers keep reading them. Aims at windows *inside* get / insert (between the map lookup and
+/// the expiry check), which no switch point may expose because a map guard is held there.
+fn gen_chase_prog(rng: &mut Rng, scale: u64) -> Prog {
+    let keys = rng.range(1, 2) as u32;
+    let mut cfg = gen_cfg(rng, keys);
+    cfg.cap = *rng.pick(&[None, Some(4u64), Some(2)]);
+    let writers = rng.range(1, 2) as usize;
+    let readers = rng.range(2, 4) as usize;
+    let mut threads = Vec::new();
+    for _ in 0..writers {
+        let mut ops = Vec::new();
+        for _ in 0..rng.range(60, 200) * scale {
+            let k = rng.below(keys as u64) as u32;
+            ops.push(COp::Insert { k, w: 1 });
+            match rng.below(6) {
+                0 | 1 => ops.push(COp::InvalidateAll),
+                2 => ops.push(COp::Invalidate { k }),
+                _ => {}
+            }
+        }
+        threads.push(ops);
+    }
+    for _ in 0..readers {
+        let mut ops = Vec::new();
+        for _ in 0..rng.range(200, 500) * scale {
+            ops.push(COp::Get { k: rng.below(keys as u64) as u32 });
+        }
+        threads.push(ops);
+    }
+    Prog { cfg, threads }
 }
 
 fn gen_big_prog(rng: &mut Rng) -> Prog {
@@ -1345,7 +1420,7 @@ fn main() {
         match parse_prog(&text) {
             Some((prog, mode, strategy, sseed)) if !prog.threads.is_empty() => {
                 let mut stats = mmv::monitor::Stats::default();
-                let tries = if mode == "stress" { 200 } else { 1 };
+                let tries = if mode == "stress" || mode == "chase" { 200 } else { 1 };
                 let mut bad = 0;
                 for t in 0..tries {
                     let r = run_program(&prog, &mode, parse_strategy(&strategy), sseed + t, &mut stats, false);
@@ -1372,6 +1447,7 @@ fn main() {
         "baton" => mode_programs(&args, "baton"),
         "park" => mode_programs(&args, "park"),
         "stress" => mode_programs(&args, "stress"),
+        "chase" => mode_programs(&args, "chase"),
         "burst1" => mode_burst1(&args),
         "burstn" => mode_burstn(&args),
         "iter" => mode_iter(&args),
